@@ -15,24 +15,41 @@ Theorem C08_lex_tokens : forall (printable : N -> bool) (l : list ptok),
 Proof. exact RenderProof.lex_untok. Qed.
 Print Assumptions C08_lex_tokens.
 
-(* the table lemma: every renderer passes every string field through repr, table prefixes excepted *)
+(* the table lemma: every renderer passes every string field through repr (table comments and table prefixes
+   included, after their repairs): no exception is left *)
 Theorem C08_all_leaves_via_repr : forall c ops,
-  forallb top_ty_ok ops = true -> forallb no_prefixes ops = true ->
+  forallb top_ty_ok ops = true ->
   forallb (fun st => forallb all_leaves_via_repr (stmt_exprs st)) (render_ops c ops) = true.
 Proof. exact RenderProof.render_all_via_repr. Qed.
 Print Assumptions C08_all_leaves_via_repr.
 
+(* rendered expressions are well-formed token sequences whenever the input is (identifiers of the configuration
+   and of the opaque type trees are Python identifiers, strings are code point sequences) *)
+Theorem C08_render_wf : forall c ops, wf_cfg c = true -> forallb wf_top ops = true ->
+  forallb (fun st => forallb wf_expr (stmt_exprs st)) (render_ops c ops) = true.
+Proof. intros c ops C W. exact (RenderProof.render_wf c C ops W). Qed.
+Print Assumptions C08_render_wf.
+
 (* hence the printed text of every rendered expression lexes to the intended token list *)
 Theorem C08_tokens : forall (printable : N -> bool) c ops st e,
-  forallb top_ty_ok ops = true -> forallb no_prefixes ops = true ->
-  In st (render_ops c ops) -> In e (stmt_exprs st) -> wf_expr e = true ->
+  wf_cfg c = true -> forallb wf_top ops = true -> forallb top_ty_ok ops = true ->
+  In st (render_ops c ops) -> In e (stmt_exprs st) ->
   py_lex (print printable e) = Ok (tokens e).
 Proof.
-  intros printable c ops st e T P Hst He W. apply RenderProof.print_lex; [exact W|].
-  pose proof (RenderProof.render_all_via_repr c ops T P) as A. rewrite forallb_forall in A.
-  specialize (A st Hst). rewrite forallb_forall in A. exact (A e He).
+  intros printable c ops st e C W T Hst He.
+  pose proof (RenderProof.render_all_via_repr c ops T) as A. rewrite forallb_forall in A.
+  specialize (A st Hst). rewrite forallb_forall in A.
+  pose proof (RenderProof.render_wf c C ops W) as B. rewrite forallb_forall in B.
+  specialize (B st Hst). rewrite forallb_forall in B.
+  apply RenderProof.print_lex; [exact (B e He)|exact (A e He)].
 Qed.
 Print Assumptions C08_tokens.
+
+(* pasting text between quote characters (what the table-comment and prefix renderers used to do) cannot work
+   for any text that contains the quote character *)
+Theorem C08_raw_quote_breaks : forall s, In c_sq s -> py_lex (raw_quote s) <> Ok [StrTok s].
+Proof. exact RenderProof.raw_quote_breaks. Qed.
+Print Assumptions C08_raw_quote_breaks.
 
 (* reading the rendered tree back as the Operations proxies do yields the operation objects *)
 Theorem C08_eval : forall c ops, canonical (c, ops) = true -> eval_stmts c (render_ops c ops) = Some (expected c ops).
@@ -71,21 +88,6 @@ Theorem C08_eval_refuted_drop_table_types : ~ C08_holds w_droptype (model_C08 w_
 Proof. intros [_ H]. vm_compute in H. discriminate. Qed.
 Print Assumptions C08_eval_refuted_drop_table_types.
 
-(* the batch header is rendered with a hard-coded "op." whatever alembic_module_prefix says *)
-Definition w_prefix : c08_in := (mkCfg (lit "aop") (lit "sa") true, [TModify (id0 "t") None [(id0 "t", None, ODropColumn (id0 "c"))]]).
-Theorem C08_eval_refuted_batch_prefix : ~ C08_holds w_prefix (model_C08 w_prefix).
-Proof. intros [_ H]. vm_compute in H. discriminate. Qed.
-Print Assumptions C08_eval_refuted_batch_prefix.
-
-(* table prefixes are pasted between quote characters: one renderer is left that does not use repr,
-   and a prefix containing a quote makes the printed call unlexable *)
-Definition w_rawquote : table := mkTable (id0 "t") None [col0 None] [] None [lit "TEMP'ORARY"] None.
-Theorem C08_prefix_raw_quote_refuted :
-  all_leaves_via_repr (render_create_table cfg0 w_rawquote) = false /\
-  exists err, py_lex (print (fun _ => true) (render_create_table cfg0 w_rawquote)) = Err err.
-Proof. split; [vm_compute; reflexivity|]. eexists. vm_compute. reflexivity. Qed.
-Print Assumptions C08_prefix_raw_quote_refuted.
-
 (* ---------------------------------------------------------------- non-vacuity *)
 Definition ex_table : table :=
   mkTable (id0 "it's") (Some (id0 "My Schema"))
@@ -101,7 +103,11 @@ Definition ex_input : c08_in :=
 Example C08_main_nonvacuous : inclass_C08 ex_input = true /\ length (render_ops (fst ex_input) (snd ex_input)) = 2%nat.
 Proof. vm_compute. auto. Qed.
 Example C08_tokens_nonvacuous :
-  forallb top_ty_ok [TCreateTable ex_table] = false \/
-  (forallb no_prefixes [TOp (id0 "t") None (OAddColumn (col0 (Some (SdStr (lit "d'f")))))] = true /\
-   wf_expr (render_tbl_op cfg0 false (id0 "t") None (OAddColumn (col0 (Some (SdStr (lit "d'f")))))) = true).
-Proof. right. vm_compute. auto. Qed.
+  wf_cfg (fst ex_input) = true /\ forallb wf_top (snd ex_input) = true /\ forallb top_ty_ok (snd ex_input) = true.
+Proof. vm_compute. auto. Qed.
+(* a prefix with a quote and a module prefix other than op are inside the class now *)
+Example C08_repaired_inside_class :
+  inclass_C08 (mkCfg (lit "aop") (lit "sa") true,
+               [TCreateTable (mkTable (id0 "t") None [col0 None] [] None [lit "TEMP'ORARY"] None);
+                TModify (id0 "t") None [(id0 "t", None, ODropColumn (id0 "c"))]]) = true.
+Proof. vm_compute. reflexivity. Qed.
